@@ -14,7 +14,7 @@ import (
 
 func init() {
 	Register(&Rule{ID: "R-SET-1", Props: []string{"C04", "C03"}, Floor: 3,
-		Doc: "set operators without ALL bucket the rows they keep: in every set-operator method of View (methods taking the other operand's *View and the `all` flag: Union, Except, Intersect today), every path that can return success with all == false has generated the comparison keys of the receiver (a call reaching GenerateComparisonKeys on it) or has emptied the receiver's RecordSet — an early exit for an empty right-hand side must still collapse equal rows of the left operand",
+		Doc:      "set operators without ALL bucket the rows they keep: in every set-operator method of View (methods taking the other operand's *View and the `all` flag: Union, Except, Intersect today), every path that can return success with all == false has generated the comparison keys of the receiver (a call reaching GenerateComparisonKeys on it) or has emptied the receiver's RecordSet — an early exit for an empty right-hand side must still collapse equal rows of the left operand",
 		Controls: []string{"CtlSetOpSkipsBucketing"},
 		Run:      ruleSet1})
 }
